@@ -84,6 +84,9 @@ def py_quote(s: str, q: str) -> str:
     return q + body + q
 
 
+ODD_BOUNDARIES = '\u2028\u2029\x85\x1c\x1d\x1e\x0b\x0c'
+
+
 def ini_plain_ok(s: str) -> bool:
     if s == '' or s != s.strip() or '\n' in s or '\r' in s:
         return False
@@ -91,7 +94,8 @@ def ini_plain_ok(s: str) -> bool:
         return False
     if s.startswith('[') and s.endswith(']'):
         return False
-    return all(ch.isprintable() for ch in s)
+    # (characters that str.splitlines() takes for line boundaries are not line boundaries of a file: inside a value they are kept)
+    return all(ch.isprintable() or ch in ODD_BOUNDARIES for ch in s)
 
 
 def ini_triple(s: str) -> Optional[str]:
@@ -196,7 +200,7 @@ def option_table() -> List[Dict[str, Any]]:
 
 
 FREE_STRINGS = ['two\nlines', 'three\nlines of\ntext = x', 'simple', 'two words', 'x=y', 'a:b', 'semi;colon', 'hash # tag', '100%', '%(x)s', "it's", 'say "hi"', 'back\\slash', '[bracket]', '[a, b]', 'comma,sep',
-                '-dash', '--double', ' lead', 'trail ', 'tab\tin', 'café', '中', "'quoted'", '"dq"', 'true', '1', '#start', ';start', '{mod_source_href}#n{lineno}', 'a\\tb', '\\', "'", '"']
+                '-dash', '--double', ' lead', 'trail ', 'tab\tin', 'café', '中', "'quoted'", '"dq"', 'true', '1', '#start', ';start', '{mod_source_href}#n{lineno}', 'a\\tb', '\\', "'", '"', 'line\u2028sep', 'nel\x85x']
 STR_VALUES = {
     'htmlwriter': ['pydoctor.templatewriter.TemplateWriter', 'pydoctor.templatewriter.NoSuchWriter', 'nodots'],
     'systemclass': ['pydoctor.model.System', 'pydoctor.extensions.zopeinterface.NoSuch', 'x'],
@@ -208,7 +212,8 @@ APPEND_VALUES = {
     'templatedir': [['t1'], ['t1', 't 2', 't1']],
     'packages': [['src/a'], ['b', 'a', 'b']],
 }
-APPEND_DEFAULT = [['one'], ['z', 'a', 'm', 'a'], ['with space', 'x=y', "it's", 'per%cent', '#hash', 'a,b', '[x]', 'back\\slash'], ['https://example.org/objects.inv', 'http://h/p?q=1&r=2#f']]
+APPEND_DEFAULT = [['one'], ['z', 'a', 'm', 'a'], ['with space', 'x=y', "it's", 'per%cent', '#hash', 'a,b', '[x]', 'back\\slash'], ['https://example.org/objects.inv', 'http://h/p?q=1&r=2#f'],
+                  ['plain', 'line\u2028separator', 'nel\x85here'], ['para\u2029sep x', 'ff\x0chere', 'fs\x1cgs\x1drs\x1e', 'vt\x0bx']]
 
 
 def cli_args(opt: Dict[str, Any], value: Any) -> List[str]:
